@@ -6,6 +6,7 @@ package main
 // steps) as blocking gates.
 
 import (
+	"strings"
 	"sync/atomic"
 
 	jmespath "github.com/jmespath/go-jmespath"
@@ -27,3 +28,12 @@ func setHooks(h func()) {
 var hookCount int64
 
 func countingHook() { atomic.AddInt64(&hookCount, 1) }
+
+// recordEnters runs f with a hook that logs the kind of every node entered (Execute entry sequence).
+func recordEnters(f func()) []string {
+	var seq []string
+	jmespath.VerifEnterHook = func(kind string, _ interface{}) { seq = append(seq, strings.TrimPrefix(kind, "AST")) }
+	defer func() { jmespath.VerifEnterHook = nil }()
+	f()
+	return seq
+}
